@@ -342,12 +342,7 @@ class Verifier(Calls):
         """a postcondition as a goal.  If evaluating it contradicts the path (a typed heap read in it -- a trusted typing assumption --
         is false for the value the code actually stored) the clause cannot hold as written: the goal is False under the path
         condition, never a silently dropped path"""
-        n = len(self.st.pc)
-        try:
-            return self.spec_bool(parse_expr(e), env)
-        except PathEnd:
-            del self.st.pc[n:]
-            return z3.BoolVal(False)
+        return self.goal_bool(parse_expr(e), env)
 
     def conforms(self, v, tag):
         """the returned value has the declared result type"""
